@@ -42,7 +42,8 @@ Theorem C17_signal_le_pump_outcomes : forall num (o : NumOps num) U K minpos rj 
       else try_as_spdc_steps o U K minpos rj c = Panic SiteComputeSignUnwrap
   | PCOff =>
       match cc_theta_deg (c_crystal c) with
-      | Auto => try_as_spdc_steps o U K minpos rj c = Panic SiteOptThetaUnwrap \/ try_as_spdc_steps o U K minpos rj c = Panic SiteNelderMeadUnwrap
+      | Auto => try_as_spdc_steps o U K minpos rj c = Panic SiteOptThetaUnwrap \/ try_as_spdc_steps o U K minpos rj c = Panic SiteNelderMeadUnwrap \/
+                try_as_spdc_steps o U K minpos rj c = Err ETotalReflection
       | Param _ =>
           match c_idler c with
           | Auto => try_as_spdc_steps o U K minpos rj c = Err ESignalLePump
@@ -197,27 +198,32 @@ Proof. exact now_ok_finite_or_err_at. Qed.
      no_total_internal_reflection  |n sin(theta_s)| <= 1 at the placeholder crystal angle, when the crystal angle is automatic (F7b, F7f)
      angle_search_defined          every candidate angle the search evaluates has a defined cost (Snell inverse + unpoled idler)
      period_search_defined_at      every candidate period the search evaluates has a defined cost (F7h)
-   plus totality of the Snell inverse (property C13).  The first hypothesis cannot be dropped: C17_tir_panics_composed. *)
+   plus totality of the Snell inverse (property C13).  The first and the third are needed only while the code lacks the repairs of
+   F7b / F7h: they are guarded by the source-derived flags cfg_checks_total_reflection / searches_cannot_fail (Gen/ConfigSites.v).
+   The first cannot be dropped without the repair: C17_tir_outcome_composed. *)
 Theorem C17_no_panic_composed : forall index_of snell_inv sd_theta sd_period U minpos (c : spdc_cfg R),
   (forall b e cs, snell_inv b e cs <> None) ->
-  no_total_internal_reflection index_of snell_inv sd_theta sd_period c ->
+  (cfg_checks_total_reflection = false -> no_total_internal_reflection index_of snell_inv sd_theta sd_period c) ->
   angle_search_defined index_of snell_inv sd_theta sd_period c ->
-  period_search_defined_at index_of snell_inv sd_theta sd_period c ->
+  (searches_cannot_fail = false -> period_search_defined_at index_of snell_inv sd_theta sd_period c) ->
   is_panic (try_as_spdc_now R_ops U (oracles_of_model index_of snell_inv sd_theta sd_period) minpos c) = false.
 Proof. exact no_panic_composed. Qed.
 
-Theorem C17_tir_panics_composed : forall index_of snell_inv sd_theta sd_period U minpos (c : spdc_cfg R) signal,
+(* what happens to a signal beyond total internal reflection with an automatic crystal angle: the panic of finding F7b while
+   the code does not check (cfg_checks_total_reflection = false), the error the property asks for once it does *)
+Theorem C17_tir_outcome_composed : forall index_of snell_inv sd_theta sd_period U minpos (c : spdc_cfg R) signal,
   cfg_le R_ops c = false -> signal_step R_ops (oracles_of_model index_of snell_inv sd_theta sd_period) c = Ok signal ->
   is_auto (cc_theta_deg (c_crystal c)) = true -> c_pp c = PCOff ->
   snell_ext_defined index_of signal (cfg_cs0 R_ops c) = false ->
-  try_as_spdc_now R_ops U (oracles_of_model index_of snell_inv sd_theta sd_period) minpos c = Panic SiteNelderMeadUnwrap.
-Proof. exact tir_panics_composed. Qed.
+  try_as_spdc_now R_ops U (oracles_of_model index_of snell_inv sd_theta sd_period) minpos c =
+    if cfg_checks_total_reflection then Err ETotalReflection else Panic SiteNelderMeadUnwrap.
+Proof. exact tir_outcome_composed. Qed.
 
 Theorem C17_no_panic_composed_builtin : forall snell_inv sd_theta sd_period U minpos (c : spdc_cfg R),
   (forall b e cs, snell_inv b e cs <> None) ->
-  no_total_internal_reflection builtin_index_of snell_inv sd_theta sd_period c ->
+  (cfg_checks_total_reflection = false -> no_total_internal_reflection builtin_index_of snell_inv sd_theta sd_period c) ->
   angle_search_defined builtin_index_of snell_inv sd_theta sd_period c ->
-  period_search_defined_at builtin_index_of snell_inv sd_theta sd_period c ->
+  (searches_cannot_fail = false -> period_search_defined_at builtin_index_of snell_inv sd_theta sd_period c) ->
   is_panic (try_as_spdc_now R_ops U (oracles_of_model builtin_index_of snell_inv sd_theta sd_period) minpos c) = false.
 Proof. exact no_panic_builtin. Qed.
 
@@ -225,9 +231,9 @@ Proof. exact no_panic_builtin. Qed.
    optimum idler is defined (arg > 0, |val| <= 1) *)
 Theorem C17_ok_finite_or_err_composed_partial : forall index_of snell_inv sd_theta sd_period U minpos (c : spdc_cfg R),
   (forall b e cs, snell_inv b e cs <> None) ->
-  no_total_internal_reflection index_of snell_inv sd_theta sd_period c ->
+  (cfg_checks_total_reflection = false -> no_total_internal_reflection index_of snell_inv sd_theta sd_period c) ->
   angle_search_defined index_of snell_inv sd_theta sd_period c ->
-  period_search_defined_at index_of snell_inv sd_theta sd_period c ->
+  (searches_cannot_fail = false -> period_search_defined_at index_of snell_inv sd_theta sd_period c) ->
   (forall cs l pol, index_of cs l Vec3.ez pol <> 0%R) ->
   idler_defined_at index_of snell_inv sd_theta sd_period minpos c ->
   (forall signal, signal_step R_ops (oracles_of_model index_of snell_inv sd_theta sd_period) c = Ok signal ->
@@ -309,7 +315,7 @@ Example C17_ex_snell_total : exists si : beam R -> R -> crystal_setup R -> optio
 Proof. exact snell_total_example. Qed.
 
 Print Assumptions C17_no_panic_composed.
-Print Assumptions C17_tir_panics_composed.
+Print Assumptions C17_tir_outcome_composed.
 Print Assumptions C17_no_panic_composed_builtin.
 Print Assumptions C17_ok_finite_or_err_composed_partial.
 Print Assumptions C17_idler_is_C03.
